@@ -3,9 +3,12 @@
    Go code mirrored (pkg/edition/java/netmc/connection.go, proto/util/queue/packet_queue.go):
 
      WritePacket(p)        = Closed? ; BufferPacket(p) ; Flush()
-     bufferPacket(p,true)  = Closed? ; c.mu.Lock ; q := c.playPacketQueue ; c.mu.Unlock      -- step 1: a_read_ptr
+     bufferPacket(p,true)  = Closed? ; c.mu.Lock ; queued, err := c.playPacketQueue.Queue(p)
+                             ; if !queued then c.wr.WritePacket(p) ; c.mu.Unlock            -- ONE action: a_spec_write
+                             (since fix commit 4cea635; on error closeOnWriteErr closes the connection)
+     PRE-FIX bufferPacket  = Closed? ; c.mu.Lock ; q := c.playPacketQueue ; c.mu.Unlock      -- step 1: a_read_ptr
                              ; queued, err := q.Queue(p) ; if !queued then c.wr.WritePacket(p) -- step 2: a_qoe
-                             (step 2 runs WITHOUT c.mu; on error closeOnWriteErr closes the connection)
+                             (step 2 ran WITHOUT c.mu: finding C14-1, fixed; kept as old_write)
      PlayPacketQueue.Queue = nil receiver: not queued ; packet registered in CONFIG: not queued ;
                              Len() >= 1024: ErrQueueFull ; else PushBack
      SetState / SetOutboundState(s) = c.mu.Lock ; c.wr.SetState(s) ; ensurePlayPacketQueue ; c.mu.Unlock   -- one action: a_set
@@ -14,7 +17,8 @@
 
    Queues are OBJECTS in a heap and c.playPacketQueue is a reference, so that a writer holding a stale
    reference (read in step 1, used in step 2 after a release) is expressible.
-   spec_write is what the property demands: both halves in one critical section.                    *)
+   spec_write is what the property demands: both halves in one critical section.  impl_write (the code
+   as it is today) IS spec_write; old_write is the pre-fix two-step write.                           *)
 From Coq Require Import List NArith Bool Arith.
 From Verif Require Import Base.Conc Base.Hex Base.VarInt.
 Import ListNotations.
@@ -120,11 +124,11 @@ Definition do_queue_or_encode (t : nat) (p : pkt) (q : option nat) (s : st) : st
       else (set_heap (upd [] i (queue_at i s ++ [p]) (s_heap s)) s, [EAcc p; ERes t p ROk])
   end.
 
-(* step 1 of bufferPacket: closed check and pointer read under c.mu *)
+(* PRE-FIX step 1 of bufferPacket: closed check and pointer read under c.mu *)
 Definition a_read_ptr (t : nat) : @action st event := fun s =>
   (set_reg t (if s_closed s then RSawClosed else RPtr (s_cur s)) s, []).
 
-(* step 2 of bufferPacket, not under c.mu *)
+(* PRE-FIX step 2 of bufferPacket, not under c.mu *)
 Definition a_qoe (t : nat) (p : pkt) : @action st event := fun s =>
   match get_reg t s with
   | RIdle => (s, [])
@@ -132,7 +136,7 @@ Definition a_qoe (t : nat) (p : pkt) : @action st event := fun s =>
   | RPtr q => do_queue_or_encode t p q (set_reg t RIdle s)
   end.
 
-(* what the property demands: one critical section *)
+(* what the property demands and what bufferPacket does today: one critical section *)
 Definition a_spec_write (t : nat) (p : pkt) : @action st event := fun s =>
   if s_closed s then (s, [ERes t p RErrClosed])
   else do_queue_or_encode t p (s_cur s) s.
@@ -160,7 +164,7 @@ Definition a_set (ph : phase) : @action st event := fun s =>
 (* ---------- programs ---------- *)
 
 Inductive lbl :=
-| LRead (t : nat) | LQoE (t : nat) (p : pkt)    (* today's code: two steps *)
+| LRead (t : nat) | LQoE (t : nat) (p : pkt)    (* the PRE-FIX code: two steps *)
 | LSpecW (t : nat) (p : pkt)                   (* the property's write *)
 | LSet (ph : phase).
 
@@ -172,8 +176,11 @@ Definition sem (l : lbl) : @action st event :=
   | LSet ph => a_set ph
   end.
 
-Definition impl_write (t : nat) (p : pkt) : list lbl := [LRead t; LQoE t p].
 Definition spec_write (t : nat) (p : pkt) : list lbl := [LSpecW t p].
+(* today's bufferPacket (fix 4cea635) *)
+Definition impl_write : nat -> pkt -> list lbl := spec_write.
+(* bufferPacket before the fix *)
+Definition old_write (t : nat) (p : pkt) : list lbl := [LRead t; LQoE t p].
 
 (* writer goroutine t writes its packets one after the other *)
 Definition writer (w : nat -> pkt -> list lbl) (t : nat) (ps : list pkt) : list lbl := flat_map (w t) ps.
